@@ -473,4 +473,62 @@ structure RunValid (N : Num F) (c : RunCfg F) : Prop where
 
 end field
 
+/-! ### Edges of a route without repeated cities -/
+
+theorem edges_cons_cons (x y : Nat) (r : List Nat) : edges (x :: y :: r) = (x, y) :: edges (y :: r) := by
+  simp [edges]
+
+theorem edges_mem {l : List Nat} {a b : Nat} (h : (a, b) ∈ edges l) : a ∈ l ∧ b ∈ l := by
+  have := List.of_mem_zip h
+  exact ⟨this.1, List.mem_of_mem_tail this.2⟩
+
+theorem edges_antisymm : ∀ l : List Nat, l.Nodup → ∀ a b, (a, b) ∈ edges l → (b, a) ∉ edges l := by
+  intro l
+  induction l with
+  | nil => intro _ a b h; simp [edges] at h
+  | cons x rest ih =>
+    intro hnd a b hab hba
+    cases rest with
+    | nil => simp [edges] at hab
+    | cons y r =>
+      rw [edges_cons_cons] at hab hba
+      obtain ⟨hx, hnd'⟩ := List.nodup_cons.mp hnd
+      simp only [List.mem_cons, Prod.mk.injEq] at hab hba
+      rcases hab with ⟨rfl, rfl⟩ | hab
+      · rcases hba with ⟨h1, _⟩ | hba
+        · subst h1; exact hx (by simp)
+        · exact hx (edges_mem hba).2
+      · rcases hba with ⟨rfl, rfl⟩ | hba
+        · exact hx (edges_mem hab).2
+        · exact ih hnd' a b hab hba
+
+theorem edges_nodup : ∀ l : List Nat, l.Nodup → (edges l).Nodup := by
+  intro l
+  induction l with
+  | nil => intro _; simp [edges]
+  | cons x rest ih =>
+    intro hnd
+    cases rest with
+    | nil => simp [edges]
+    | cons y r =>
+      rw [edges_cons_cons]
+      obtain ⟨hx, hnd'⟩ := List.nodup_cons.mp hnd
+      exact List.nodup_cons.mpr ⟨fun h => hx (edges_mem h).1, ih hnd'⟩
+
+/-- A route without repeated cities has each pair of cities joined by at most one of its edges. -/
+theorem hits_le_one (l : List Nat) (hnd : l.Nodup) (i j : Nat) : hits l i j ≤ 1 := by
+  have hn := edges_nodup l hnd
+  have h1 : (edges l).count (i, j) ≤ 1 := List.nodup_iff_count_le_one.mp hn _
+  have h2 : (edges l).count (j, i) ≤ 1 := List.nodup_iff_count_le_one.mp hn _
+  unfold hits
+  by_cases hm : (i, j) ∈ edges l
+  · have : (edges l).count (j, i) = 0 := List.count_eq_zero.mpr (edges_antisymm l hnd i j hm)
+    omega
+  · have : (edges l).count (i, j) = 0 := List.count_eq_zero.mpr hm
+    omega
+
+theorem hits_pos_iff (l : List Nat) (i j : Nat) : 0 < hits l i j ↔ (i, j) ∈ edges l ∨ (j, i) ∈ edges l := by
+  unfold hits
+  rw [Nat.add_pos_iff_pos_or_pos, List.count_pos_iff, List.count_pos_iff]
+
 end MahfModel.Aco
